@@ -64,6 +64,9 @@ TEXT = {
     "C12": dict(technique="property-based testing (rapid state machine, t.Repeat): every call in a generated history vs the same call on a freshly compiled Regexp",
                 text="Histories of ~30 actions over 4 shared Regexps (balancing, bool-only program, backreference, stack limit 64, timeout, RightToLeft, replacement cache of 2, ...) x 13 entry points x inputs that match / fail / hit the limit / time out and cross the pooled-buffer size classes (1K/4K/16K runes) x 18 replacements: each outcome (canonical result or error class) equals the outcome on a fresh Regexp; probe calls re-check every shared Regexp.",
                 note="Timeout-involving outcomes are confirmed three times before being reported. Failing histories are replayed from fresh shared Regexps.", ref="§6 C12"),
+    "C11": dict(technique="property-based testing (rapid) of generated concurrent workloads under the race detector: concurrent results == precomputed sequential results",
+                text="Generated workloads (3-6 shared Regexps, 150-2000 calls over 13 entry points incl. timed and stack-limited calls, more distinct replacements than the cache holds, inputs crossing pooled-buffer classes) x G in {2,4,8,32} goroutines x GOMAXPROCS in {1,2,4,16} x generated yield points; every concurrent result equals the sequential result on a fresh Regexp; built with -race, any race report fails the run (the workload that was running is saved as the replay).",
+                note="Schedules are sampled by the Go scheduler, not enumerated: a regression guard for the runner pool, active-program reset, bitmap immutability, LRU mutex, global pools and clock; not an exhaustive interleaving exploration (DESIGN section 9).", ref="§6 C11"),
 }
 
 PENDING = "check not built yet in this session (work in progress; see DESIGN.md section 6 for the planned generated-input check)"
